@@ -311,4 +311,48 @@ def predictFitLoop (common : Inp) (vram : Nat) : List (Lib × List Gpu) → Bool
 def predictFit (common : Inp) (groups : List (Lib × List Gpu)) : Bool × Nat :=
   predictFitLoop common 0 groups
 
+/-! ### scheduler side: `Scheduler.updateFreeSpace` (server/sched.go)
+
+Before the estimator runs for a further model, the scheduler reconciles the free memory the
+driver reported with the usage it predicted for the runners that are already loaded.  Pure
+function of the GPU list and the loaded runners' per-GPU predictions. -/
+
+structure SGpu where
+  key : Nat       -- class of (Library, ID): the key of `predMap`
+  idk : Nat       -- class of ID: what `EstimatedVRAMByGPU` is asked
+  total : Nat     -- TotalMemory
+  free : Nat      -- FreeMemory as reported
+  deriving DecidableEq, Repr
+
+/-- a loaded runner: `none` = `r.llama == nil` (skipped with a warning); `some m` = its
+    `EstimatedVRAMByGPU` as an association list by ID class (absent = 0) -/
+abbrev Runner := Option (List (Nat × Nat))
+
+def estOf (m : List (Nat × Nat)) (idk : Nat) : Nat :=
+  match m.lookup idk with
+  | some v => v
+  | none => 0
+
+/-- what one runner adds to `predMap[key]`: one term for every GPU of the list with that key -/
+def runnerTerms (gpus : List SGpu) (key : Nat) : Runner → List Nat
+  | none => []
+  | some m => (gpus.filter (fun g => g.key == key)).map (fun g => estOf m g.idk)
+
+/-- `predMap[key]` after the accumulation loop (uint64 sum; the order is immaterial mod 2^64) -/
+def predOf (gpus : List SGpu) (runners : List Runner) (key : Nat) : Nat :=
+  accW 0 (runners.flatMap (runnerTerms gpus key))
+
+/-- the three branches: `p > total ⇒ 0`; `total-p < free ⇒ total-p`; else unchanged -/
+def adjust (p : Nat) (g : SGpu) : Nat :=
+  if p > g.total then 0
+  else if g.total - p < g.free then g.total - p
+  else g.free
+
+/-- FreeMemory of every GPU after `updateFreeSpace`.  A GPU has an entry in `predMap` iff at least
+    one loaded runner has a non-nil `llama` (then every GPU of the list has one); without an
+    entry the GPU is left alone. -/
+def updateFree (gpus : List SGpu) (runners : List Runner) : List Nat :=
+  if runners.any (·.isSome) then gpus.map (fun g => adjust (predOf gpus runners g.key) g)
+  else gpus.map (·.free)
+
 end OllamaVerif.Memory
